@@ -335,10 +335,19 @@ func selectMain(fs *flag.FlagSet, args []string) error {
 			for _, o := range obs {
 				seen[o.Labels["zz_uid"]]++
 			}
+			// the sets judged for Select (the HTTP routes below use the full ones)
+			expAll, mechAll := exp, mech
+			exp, mech = map[string]*storedSeries{}, map[string]bool{}
+			for u, st := range expAll {
+				exp[u] = st
+			}
+			for u := range mechAll {
+				mech[u] = true
+			}
 			if !hv.Raw && hv.Range > 0 && hv.Step > hv.Range {
 				// a series none of whose samples survive the window filter of processHints is not handed out at all:
 				// that is a matter of samples (judged here), not of selection
-				for u, st := range exp {
+				for u, st := range expAll {
 					if seen[u] > 0 {
 						continue
 					}
@@ -429,12 +438,12 @@ func selectMain(fs *flag.FlagSet, args []string) error {
 					viol.add("select|prom|samples|"+cl+sampleStoreSuffix(cl, mode), fmt.Sprintf("series %s hints %s: samples %v, stored in (start,end]: %v", fmtLabels(st.Labels), hv.Name, o.Samples, want), detail(nil))
 				}
 			}
-			if len(samples) < 2 && len(exp) > 0 && len(exp) < len(stored) && len(ms) > 1 {
+			if len(samples) < 2 && len(exp) > 0 && len(exp) < len(stored) && len(ms) > 1 && len(missing)+len(extra)+len(twice) == 0 && hv.Raw {
 				samples = append(samples, detail(nil)())
 			}
 			// ---- the HTTP routes that take a selector
 			if *httpEvery > 0 && ci%*httpEvery == 0 {
-				env.httpRoutes(c, cs, abs, ms, stored, exp, mech, &viol, stats, &infra, detail)
+				env.httpRoutes(c, cs, abs, ms, stored, expAll, mechAll, &viol, stats, &infra, detail)
 			}
 		}
 	}
